@@ -38,7 +38,6 @@ var reviewedRender = []reviewedEntry{
 	rv("index", "rare/pkg/aggregation.(*AccumulatingGroup).DataCols", "ret[id]", 1, "ret was made with len(s.colDef) and id ranges over s.colDef"),
 	rv("slice", "rare/pkg/aggregation.minSlice", "items[:count]", 1, "len(items) >= count after the early return; count is a row limit >= 0 (quantifier)", "len(items) >= count"),
 	rv("index", "rare/pkg/aggregation.(*StatisticalAnalysis).Median", "s.orderedValues[len(s.orderedValues) / 2]", 1, "non-empty after the early return, and len/2 < len for len >= 1", "len(s.orderedValues) != 0"),
-	rv("index", "rare/pkg/aggregation.(*StatisticalAnalysis).Quantile", "s.orderedValues[idx]", 1, "idx is clamped to [0, len-1] by the two preceding ifs and the slice is non-empty after the early return (re-checked: rule C14-a/clamp)"),
 	// color
 	rv("index", "rare/pkg/color.WrapIndices", "groups[i + 1]", 1, "len(groups) is even and non-zero (early return) and i is an even index < len(groups)", "i < len(groups)"),
 	rv("slice", "rare/pkg/color.WrapIndices", "s[lastIndex:start]", 1, "guarded by start >= lastIndex; lastIndex is 0 or a previous end; matcher contract start <= end <= len(s)", "start >= lastIndex"),
@@ -321,61 +320,34 @@ func c14Scale(c *Ctx, r *Report) {
 	_ = n
 }
 
-// c14Clamp re-checks the reason given for Quantile: the index variable is
-// compared against 0 and len before use.
+// c14Clamp: every indexed access in Quantile is proven in range by the
+// engine itself (compiler or dominating guards, joined or path by path) - no
+// reviewed reason is accepted here, so removing or weakening a clamp fails.
 func c14Clamp(c *Ctx, r *Report) {
 	const rule = "C14-a/clamp"
 	fi := c.MustFunc(r, rule, "rare/pkg/aggregation", "(*StatisticalAnalysis).Quantile")
 	if fi == nil {
 		return
 	}
-	info := fi.Pkg.TypesInfo
-	// find the index expression s.orderedValues[idx]
-	var ix *ast.IndexExpr
-	ast.Inspect(fi.Decl.Body, func(n ast.Node) bool {
-		if e, ok := n.(*ast.IndexExpr); ok && ix == nil {
-			if _, isId := ast.Unparen(e.Index).(*ast.Ident); isId {
-				ix = e
-			}
-		}
-		return true
-	})
-	if ix == nil {
-		r.Undecided(rule, fi.Name, "index", c.Pos(fi.Decl.Pos()), "indexed access not found")
+	bce, err := bceList(c)
+	if err != nil {
+		r.Undecided(rule, "compiler", "listing", "-", err.Error())
 		return
 	}
-	o := identObj(info, ix.Index)
-	// structural: there is `if idx < 0 { idx = 0 }` and `idx >= len(X) { idx = len(X)-1 }` before the use, in straight-line code
-	lower, upper := false, false
-	ast.Inspect(fi.Decl.Body, func(n ast.Node) bool {
-		is, ok := n.(*ast.IfStmt)
-		if !ok || is.Pos() > ix.Pos() {
-			return true
+	pe := &panicEngine{c: c, bce: bce, scope: map[ast.Node]bool{fi.Decl: true}}
+	pe.run("rare/pkg/aggregation")
+	n := 0
+	for _, o := range pe.obs {
+		if o.Kind != "index" && o.Kind != "slice" {
+			continue
 		}
-		be, ok := ast.Unparen(is.Cond).(*ast.BinaryExpr)
-		if !ok || identObj(info, be.X) != o || len(is.Body.List) != 1 {
-			return true
-		}
-		as, ok := is.Body.List[0].(*ast.AssignStmt)
-		if !ok || len(as.Lhs) != 1 || identObj(info, as.Lhs[0]) != o || as.Tok != token.ASSIGN {
-			return true
-		}
-		if v, isC := constInt(info, be.Y); isC && v == 0 && be.Op == token.LSS {
-			if a, isC2 := constInt(info, as.Rhs[0]); isC2 && a == 0 {
-				lower = true
-			}
-		}
-		if be.Op == token.GEQ || be.Op == token.GTR {
-			want := "len(" + exprStr(ix.X) + ")"
-			if exprStr(be.Y) == want && (exprStr(as.Rhs[0]) == want+" - 1") {
-				upper = true
-			}
-		}
-		return true
-	})
-	// no assignment to idx between the clamps and the use other than the clamps themselves is implied by the shape check
-	r.Check(lower && upper, rule, fi.Name, exprStr(ix), c.Pos(ix.Pos()), "guard: index clamped to [0, len-1] before use",
-		"the quantile index int(len*p) is used without being clamped to [0, len-1]: --quantile 100 (p = 1.0) indexes one past the end")
+		n++
+		r.Check(o.By != "", rule, fi.Name, o.Expr, c.Pos(o.Pos), "guard: index clamped to [0, len-1] before use ("+o.By+")",
+			"the quantile index int(len*p) is used without being clamped to [0, len-1] on every path: --quantile 100 (p = 1.0) indexes one past the end")
+	}
+	if n == 0 {
+		r.Undecided(rule, fi.Name, "index", c.Pos(fi.Decl.Pos()), "indexed access not found")
+	}
 	r.Floor(rule, 1, "Quantile")
 }
 
